@@ -100,6 +100,15 @@ def cases(seed, k, tier):
                 sc = copy.deepcopy(base)
                 sc["fault"] = {"kind": "coded_trunc", "keep": keep}
                 yield sc
+                if base["decode"] and base["finisher"] != "data":
+                    # the same truncated stream read in small pieces by a caller that asks for decoding per call on a response
+                    # created with decode_content=False (every piece size divides what has been decoded so far when it is 1)
+                    sc3 = copy.deepcopy(sc)
+                    sc3["decode_request"] = False
+                    sc3["program"] = [o for o in sc3["program"] if o[0] != "readinto"]
+                    sc3["finisher"] = rng.choice(["read_n_loop", "stream", "read_n_loop"])
+                    sc3["amt"] = rng.choice([1, 1, 2, 7])
+                    yield sc3
 
 
 def _size_digits(wire: bytes, a: int) -> int:
